@@ -1,5 +1,7 @@
 import Hive.Proofs.ReactiveInst
+import Hive.Proofs.ReactiveDiff
 import Hive.Proofs.ReactiveVariants
+import Hive.Proofs.ReactiveElements
 import Hive.Proofs.ReactiveDir
 import Hive.Gen.C13_Skel
 /-!
@@ -93,6 +95,59 @@ theorem C13_update_id_test_never_fires (o : Obj S N) {cfg : Cfg (Sh S N) (Th o.W
     cases htk : (cfg.1.cbs c).takes id with
     | true => rfl
     | false => rw [takes_false_unsub hlt htk] at hu; cases hu
+
+/-! ## Repeated and late calls of an unsubscribe function
+
+The scripts of the model's threads are arbitrary: `unsub c` may occur any number of times, in any
+thread, at any time after callback `c` was registered — so every theorem of this file already holds
+for histories in which unsubscribe functions are called twice, concurrently, or long after other
+subscribers came and went.  The two facts below say *why* such calls are harmless: the element an
+unsubscribe function holds is the element of its own callback for ever (the callback list never
+hands an element to a second subscription: `C13_skeleton_list_inner_insertValue`,
+`C13_skeleton_type_list`), so a repeated `Remove` finds nothing to unlink. -/
+
+/-- **Calling an unsubscribe function again is a no-op**: once `MarkUnsubscribed` has run for callback
+`c`, a further call (by any thread, whatever was subscribed or unsubscribed in between) changes
+nothing of the shared state in its `Remove` step — in particular the callback list keeps every other
+subscription — and in its `MarkUnsubscribed` step only appends one more `unsubRet` to `c`'s own log. -/
+theorem C13_repeated_unsubscribe_noop (o : Obj S N) {cfg : Cfg (Sh S N) (Th o.WOp N)} (h : Reachable o cfg)
+    {c : Nat} (hc : c < cfg.1.ncb) (hu : (cfg.1.cbs c).unsub = true) (rest : List (Op o.WOp)) :
+    step o cfg.1 { pc := .idle, script := .unsub c :: rest } = [(cfg.1, { pc := .uRm c, script := rest })] ∧
+    ∀ sh' t', (sh', t') ∈ step o cfg.1 { pc := .uRm c, script := rest } →
+      t' = { pc := .idle, script := rest } ∧ sh'.st = cfg.1.st ∧ sh'.uid = cfg.1.uid ∧
+      sh'.listed = cfg.1.listed ∧ sh'.ncb = cfg.1.ncb ∧ (∀ i, i ≠ c → sh'.cbs i = cfg.1.cbs i) ∧
+      (sh'.cbs c).unsub = true ∧ notes (sh'.cbs c).evs = notes (cfg.1.cbs c).evs := by
+  have hnl : c ∉ cfg.1.listed := (h.inv.i2.cb c).unsubNL hu
+  have hf : cfg.1.listed.filter (· != c) = cfg.1.listed := by
+    rw [List.filter_eq_self]
+    intro a ha
+    simp only [bne_iff_ne, ne_eq]
+    intro hac; exact hnl (hac ▸ ha)
+  constructor
+  · simp only [step, hc, if_true, hf]
+  · intro sh' t' hm
+    simp only [step] at hm
+    split at hm
+    · simp at hm
+    · simp only [List.mem_singleton, Prod.mk.injEq] at hm
+      obtain ⟨rfl, rfl⟩ := hm
+      refine ⟨rfl, rfl, rfl, rfl, rfl, ?_, ?_, ?_⟩
+      · intro i hi; simp [setCb, hi]
+      · simp [setCb]
+      · simp [setCb, notes_unsubRet]
+
+/-- The history of seeded change r6-1 on the model: A subscribes and unsubscribes, B subscribes next, A's
+unsubscribe function is called a second time, the value changes, A's function is called a third time. -/
+def exLate : Cfg (Sh Nat (Nat × Nat)) (Th (varObj Nat 0 0).WOp (Nat × Nat)) :=
+  runSched (sys (varObj Nat 0 0))
+    (sh0 (varObj Nat 0 0), [{ script := [.sub true, .unsub 0, .sub true, .unsub 0, .write (fun _ => 5), .unsub 0] }])
+    (List.replicate 30 (0, 0))
+
+/-- … B stays in the list and is handed the change; A's log only collects `unsubRet`s. -/
+theorem C13_late_unsubscribe_example :
+    exLate.1.listed = [1] ∧ (exLate.1.cbs 1).evs = [.enter (0, 0), .exit, .enter (0, 5), .exit] ∧
+    (exLate.1.cbs 0).evs = [.enter (0, 0), .exit, .unsubRet, .unsubRet, .unsubRet] ∧
+    exLate.2.map (fun t => t.script.length) = [0] := by decide
 
 /-! ## Variable and Event -/
 section Var
@@ -214,13 +269,24 @@ theorem C13_set_fold (init : List Nat) {cfg : Cfg (Sh (List Nat) Mut) (Th (setOb
       | cons a r => simp [hs] at hno
     simp [Option.toList, this]
 
+/-- **Every reported mutation is a true difference, in the order of the changes**: at any moment, under
+any schedule, the notes handed to a Set subscription (its initial note included) never add an element
+that the notes before already added and did not delete since, and never delete an element that is
+not there ("delete 7" never precedes "add 7").  Together with `C13_set_fold` this is clause (b) at
+every prefix of the log, not only at quiescence. -/
+theorem C13_set_notes_true_difference (init : List Nat) {cfg : Cfg (Sh (List Nat) Mut) (Th (setObj init).WOp Mut)}
+    (h : Reachable (setObj init) cfg) {c : Nat} (hc : c < cfg.1.ncb) :
+    trueDiffs (notes (cfg.1.cbs c).evs) = true :=
+  set_notes_trueDiffs init h.inv hc
+
 /-- The predicate `drv_c13` evaluates on a Set log recorded at quiescence holds for every
 subscription of the model. -/
 theorem C13_set_trace_ok (init : List Nat) {cfg : Cfg (Sh (List Nat) Mut) (Th (setObj init).WOp Mut)}
-    (h : Reachable (setObj init) cfg) (hq : Quiescent cfg.2) (c : Nat) :
+    (h : Reachable (setObj init) cfg) (hq : Quiescent cfg.2) {c : Nat} (hc : c < cfg.1.ncb) :
     setOk (decide (c ∈ cfg.1.listed)) cfg.1.st (cfg.1.cbs c).evs = true := by
   simp only [setOk, Bool.and_eq_true, Bool.or_eq_true, Bool.not_eq_true', decide_eq_false_iff_not]
-  refine ⟨⟨C13_callbacks_closed _ h hq c, C13_none_after_unsubscribe_returned _ h c⟩, ?_⟩
+  refine ⟨⟨⟨C13_callbacks_closed _ h hq c, C13_none_after_unsubscribe_returned _ h c⟩,
+    C13_set_notes_true_difference init h hc⟩, ?_⟩
   by_cases hl : c ∈ cfg.1.listed
   · exact Or.inr (C13_set_fold init h hq hl)
   · exact Or.inl hl
@@ -296,6 +362,54 @@ example : (ctxRun (fun _ (n : Nat × Nat) => List.replicate (n.2 % 3) true) {} [
        .call (4, 3)] := by decide
 
 end Variants
+
+/-! ## `ReadableSet.WithElements`, the subscription variant of the Set
+
+A sequential machine over the note stream of one inner `OnUpdate` subscription
+(`Hive/Spec/ReactiveElements.lean`), for every condition and every `setup` (`hasTd x` = `setup(x)`
+returns a teardown function). -/
+section Elements
+
+/-- **What is set up is what is there**: after any stream of notes a teardown function is pending for
+exactly the elements of the folded contents that satisfy the condition (and whose `setup` returned one). -/
+theorem C13_withelements_active (cond hasTd : Nat → Bool) (ms : List Mut) (x : Nat) :
+    x ∈ (weRun cond hasTd [] ms).1 ↔ x ∈ foldNotes ms ∧ cond x = true ∧ hasTd x = true :=
+  weRun_active cond hasTd ms [] [] (by simp) x
+
+/-- On a stream of true differences (what `C13_set_notes_true_difference` says the inner subscription
+gets) `setup(x)` is never called again before the teardown of the previous `setup(x)` ran, and every
+teardown call belongs to a pending setup (each teardown function runs at most once). -/
+theorem C13_withelements_alternates (cond hasTd : Nat → Bool) (ms : List Mut) (hd : trueDiffs ms = true)
+    (hn : addsNodup ms) : weOk hasTd (weRun cond hasTd [] ms).2 = true := by
+  simp [weOk, weRun_scan cond hasTd ms [] [] (by simp) hd hn]
+
+/-- … and after the function `WithElements` returned has run, nothing is left set up. -/
+theorem C13_withelements_closed_after_teardown (cond hasTd : Nat → Bool) (ms : List Mut) (hd : trueDiffs ms = true)
+    (hn : addsNodup ms) :
+    weClosed hasTd ((weRun cond hasTd [] ms).2 ++ weUnsub (weRun cond hasTd [] ms).1) = true := by
+  simp [weClosed, List.foldl_append, weRun_scan cond hasTd ms [] [] (by simp) hd hn,
+    weUnsub_scan hasTd _ (weRun_nodup cond hasTd ms [] List.nodup_nil)]
+
+/-- In the protocol: at quiescence a `WithElements` built on a subscription that was never unsubscribed is
+set up for exactly the matching elements of the set's contents — under every schedule. -/
+theorem C13_withelements_in_protocol (init : List Nat) (cond hasTd : Nat → Bool)
+    {cfg : Cfg (Sh (List Nat) Mut) (Th (setObj init).WOp Mut)} (h : Reachable (setObj init) cfg)
+    (hq : Quiescent cfg.2) {c : Nat} (hc : c ∈ cfg.1.listed) (x : Nat) :
+    x ∈ (weRun cond hasTd [] (notes (cfg.1.cbs c).evs)).1 ↔ x ∈ cfg.1.st ∧ cond x = true ∧ hasTd x = true := by
+  rw [C13_withelements_active, (sameSet_iff _ _).mp (C13_set_fold init h hq hc) x]
+
+/-- a concrete run: condition "odd", `setup(5)` returns nil -/
+example : (weRun (fun x => x % 2 == 1) (fun x => x != 5) [] [([1, 2, 3], []), ([5, 7], [1]), ([], [3, 5, 2])]).2
+    = [.setup 1, .setup 3, .setup 5, .setup 7, .teardown 1, .teardown 3] := by decide
+
+example : trueDiffs [([1, 2, 3], []), ([5, 7], [1]), ([], [3, 5, 2])] = true ∧
+    addsNodup [([1, 2, 3], []), ([5, 7], [1]), ([], [3, 5, 2])] := by
+  refine ⟨by decide, ?_⟩
+  intro m hm
+  simp only [List.mem_cons, List.not_mem_nil, or_false] at hm
+  rcases hm with rfl | rfl | rfl <;> decide
+
+end Elements
 
 /-! ## Directed schedules, the early return of `Apply`, calls without effect -/
 
@@ -556,6 +670,33 @@ theorem C13_skeleton_set_AddAll : skel_set_AddAll = ["call elements.ToSlice", "c
 theorem C13_skeleton_set_Delete : skel_set_Delete = ["call s.Apply", "return"] := by decide
 theorem C13_skeleton_set_DeleteAll : skel_set_DeleteAll = ["call s.Apply", "return"] := by decide
 theorem C13_skeleton_uniqueID_Next : skel_uniqueID_Next = ["return"] := by decide
+
+/-! An element is allocated by the insert that links it (`new(listElement)` in `insertValue`, no branch, no
+recycling): the element an unsubscribe closure holds never becomes the element of a later subscription, which is
+why a repeated / late unsubscribe call cannot unlink anybody else (`C13_repeated_unsubscribe_noop`). -/
+theorem C13_skeleton_list_inner_insertValue : skel_list_insertValue =
+    ["call newElement.value.Store", "call l.insert", "return"] := by decide
+
+/-! `WithElements` = one inner `OnUpdate` whose callback ranges over the added elements (condition, `setup`,
+remember the teardown function if it is not nil), then over the deleted ones (forget and call the remembered
+teardown), batched with a function that tears down what is left (`Hive/Spec/ReactiveElements.lean`).
+`WasTriggered` is `Get`; `LogUpdates` is an `OnUpdate` without initial-zero trigger inside the logger's
+level handler; `Decode` replaces the contents under the value mutex only — it takes no update-order mutex,
+bumps no id and notifies nobody: it is a deserialisation entry for a set nobody has subscribed to yet, not one
+of the writers the property quantifies over (`Set/Compute/Apply/Replace`). -/
+theorem C13_skeleton_set_WithElements : skel_readableSet_WithElements =
+    ["func{", "func{", "if{", "if{", "}if", "}if", "}func", "call appliedMutations.AddedElements().Range", "func{", "if{",
+      "}if", "}func", "call appliedMutations.DeletedElements().Range", "}func", "call r.OnUpdate", "func{", "for{", "}for",
+      "}func", "return"] := by decide
+
+theorem C13_skeleton_set_Decode : skel_set_Decode =
+    ["lock s.readableSet.mutex", "defer unlock s.readableSet.mutex", "helper Decode", "return"] := by decide
+
+theorem C13_skeleton_event_WasTriggered : skel_event_WasTriggered = ["call e.Get", "return"] := by decide
+
+theorem C13_skeleton_variable_LogUpdates : skel_readableVariable_LogUpdates =
+    ["func{", "func{", "if{", "}else{", "if{", "}else{", "}if", "}if", "}func", "call r.OnUpdate", "return", "}func",
+      "return"] := by decide
 
 /-! ### DerivedSet: inherited mutations are one more writer of the same protocol
 
